@@ -11,6 +11,7 @@ import Genq.Model.Config
 import Genq.Model.Conv
 import Genq.Model.Types
 import Genq.Model.Collect
+import Genq.Model.CollectSpread
 import Genq.Model.Vars
 import Genq.Model.TypeMap
 import Genq.Model.Imports
@@ -404,8 +405,38 @@ partial def parseS (j : Json) : Except String Collect.S := do
     | .ok (.str c) => return .inline (if c == "" then none else some c) sub
     | _ => return .inline none sub
 
+partial def parseS2 (j : Json) : Except String Collect.S2 := do
+  match j.getObjVal? "key" with
+  | .ok (.str k) => return .field k
+  | _ =>
+    match j.getObjVal? "spread" with
+    | .ok (.str n) => return .spread n
+    | _ =>
+      let sub ← (← getArr j "sub").toList.mapM parseS2
+      match j.getObjVal? "cond" with
+      | .ok (.str c) => return .inline (if c == "" then none else some c) sub
+      | _ => return .inline none sub
+
 def opCollect (op : String) (j : Json) : Except String Json := do
   match op with
+  | "collect.keys2" =>
+    let tds ← (← getArr j "types").toList.mapM fun t => do
+      let kind ← match (← getStr t "kind") with
+        | "OBJECT" => pure Collect.Kind.object | "INTERFACE" => pure Collect.Kind.interface | "UNION" => pure Collect.Kind.union
+        | k => throw s!"kind {k}"
+      let ifs ← (← getArr t "interfaces").toList.mapM fun x => x.getStr?
+      let ms ← (← getArr t "members").toList.mapM fun x => x.getStr?
+      pure ({ name := (← getStr t "name"), kind := kind, interfaces := ifs, members := ms } : Collect.TypeDef)
+    let lookup : String → Option Collect.TypeDef := fun n => tds.find? (·.name == n)
+    let fr ← (← getArr j "frags").toList.mapM fun f => do
+      pure ((← getStr f "name"), ((← getStr f "cond"), (← (← getArr f "sel").toList.mapM parseS2)))
+    let frags : Collect.Frags := fun n => fr.lookup n
+    let objName ← getStr j "object"
+    let some obj := lookup objName | throw s!"unknown object {objName}"
+    let sel ← (← getArr j "sel").toList.mapM parseS2
+    let fuel := 64
+    return Json.mkObj [("genq", Json.arr ((sel.flatMap (Collect.genqKeys2 lookup frags obj fuel)).map Json.str).toArray),
+                       ("spec", Json.arr ((sel.flatMap (Collect.specKeys2 lookup frags obj fuel)).map Json.str).toArray)]
   | "collect.keys" =>
     let tds ← (← getArr j "types").toList.mapM fun t => do
       let kind ← match (← getStr t "kind") with
